@@ -8,8 +8,9 @@
    class (S2).  Histories of calls are ProfileMachine.tla.
 
    Universe
-     alignments  2 rows x 0..Cols2 columns over {A, C, T, gap}; 3 rows x 0..Cols3 columns over
-                 {A, C, gap} (all-gap columns and rows included); a few contents with every
+     alignments  2 rows x 0..Cols2 columns over {A, C, T, gap} (and Cols2+1..Cols2b columns over
+                 {A, C, gap}); 3 rows x 0..Cols3 columns over {A, C, gap} (all-gap columns and
+                 rows included); a few contents with every
                  assignment of the DNA / ambiguous DNA / protein alphabets to the rows;
                  from_alignment with alphabet = None / ambiguous DNA / DNA / protein / RNA
      tables      1 position: every count vector 0..2 on four symbols of the DNA, RNA, protein,
@@ -20,7 +21,7 @@
                  arrays (wrapping, duplicates, out of range)                                 *)
 EXTENDS SeqProfileOps
 
-CONSTANTS Cols2, Cols3, IdxLen, Rich
+CONSTANTS Cols2, Cols2b, Cols3, IdxLen, Rich
 
 VARIABLES c, r
 vars == <<c, r>>
@@ -31,6 +32,7 @@ Tuples(S, n) == [1..n -> S]
 
 (* ---------------------------------------------------------------- alignments *)
 RowSets2 == UNION {Tuples(Tuples({"A", "C", "T", GapSym}, m), 2) : m \in 0..Cols2}
+            \cup UNION {Tuples(Tuples({"A", "C", GapSym}, m), 2) : m \in (Cols2 + 1)..Cols2b}
 RowSets3 == UNION {Tuples(Tuples({"A", "C", GapSym}, m), 3) : m \in 0..Cols3}
 DnaAlns  == {AlnFromRows([q \in DOMAIN rows |-> DnaAlph], rows) : rows \in RowSets2 \cup RowSets3}
 MixRows  == { << <<"A", "C">>, <<"C", GapSym>> >>, << <<"A">>, <<"A">>, <<GapSym>> >>,
@@ -45,7 +47,7 @@ OptAlphs == {<<>>, <<AmbAlph>>, <<DnaAlph>>, <<ProtAlph>>, <<RnaAlph>>}
 \* for the narrow and the mixed alignments, None / ambiguous DNA for the rest
 CallsAln(aln) ==
   {<<"from_alignment", <<aln, oa>>>> :
-     oa \in IF Rich \/ NumCols(aln) <= 1 \/ \E q \in DOMAIN aln.seqs : aln.seqs[q].alph # DnaAlph
+     oa \in IF NumCols(aln) <= (IF Rich THEN 2 ELSE 1) \/ \E q \in DOMAIN aln.seqs : aln.seqs[q].alph # DnaAlph
               THEN OptAlphs ELSE {<<>>, <<AmbAlph>>}}
 
 (* ---------------------------------------------------------------- count tables *)
@@ -74,7 +76,8 @@ BgFor(k) == [j \in 1..k |-> IF j = 1 THEN <<1, 2>> ELSE <<1, 2 * (k - 1)>>]
 ProbeSyms(p) == {p.alph[1], p.alph[2], p.alph[Carrier(p.alph)[Len(Carrier(p.alph))]]}
 ProbeSeqs(p) ==
        {Sq(p.alph, s) : s \in Tuples(ProbeSyms(p), Len(p.rows))}
-  \cup {Sq(p.alph, s) : s \in Tuples({p.alph[1]}, Len(p.rows) + 1)}                  \* wrong length
+  \cup {Sq(p.alph, s) : s \in Tuples({p.alph[1]}, Len(p.rows) + 1)}                  \* too long
+  \cup (IF Len(p.rows) = 0 THEN {} ELSE {Sq(p.alph, s) : s \in Tuples({p.alph[2]}, Len(p.rows) - 1)})   \* too short
   \cup (IF p.alph = AmbAlph THEN {Sq(DnaAlph, s) : s \in Tuples({"A", "T"}, Len(p.rows))} ELSE {})
 Others(p) ==
        {<<"profile", p>>, <<"other">>,
@@ -142,7 +145,7 @@ Spec == Init /\ [][Next]_vars
 (* ---------------------------------------------------------------- laws per case *)
 IsFrom == c.op = "from_alignment"
 SmallIdx(n) == IntIdx((-n)..(n - 1)) \cup MaskIdx(n)
-               \cup SliceIdx({-1, 1}, {-1, 2}, {-1, 2}) \cup ArrIdx(0..(n - 1), 2)
+               \cup SliceIdx({1}, {-1}, {-1, 2}) \cup ArrIdx(0..(n - 1), 2)
 InvCounts         == IsFrom => /\ Law_CountsImplDecl(c.a[1], c.a[2]) /\ Law_CountsBySymbol(c.a[1], c.a[2])
                                /\ Law_RowOrder(c.a[1], c.a[2])
 InvCommonAlphabet == IsFrom => Law_CommonAlphabet(AlnAlphabets(c.a[1]))
